@@ -47,13 +47,13 @@ Qed.
 Definition start_pre (f : outcome_facts) : firing :=
   mkFiring HN_pre_rebase ANone (with_rebase_args (with_ra (env0 f) ra_none) (f_journal_active f) (f_branch f) (f_upstream f)).
 Definition start_co (f : outcome_facts) : firing :=
-  mkFiring HN_post_checkout (APostCheckout (zero_or (f_head f)) (zero_or (f_upstream f)))
-    (with_pull (with_ra (with_refs (with_seq (env0 f) true None false None) (f_upstream f) None (f_head f) false) ra_none)
+  mkFiring HN_post_checkout (APostCheckout (zero_or (f_head f)) (zero_or (f_co_head f)))
+    (with_pull (with_ra (with_refs (with_seq (env0 f) true None false None) (f_co_head f) None (f_head f) false) ra_none)
        (match f_picks f with [] => true | _ => false end) false false (f_origs f, f_news f)).
 
-Lemma start_prefix : forall f h u, f_head f = Some h -> f_upstream f = Some u ->
+Lemma start_prefix : forall f h u, f_head f = Some h -> f_co_head f = Some u ->
   hook_run rewrite_stash_default_debug false [start_pre f; start_co f] init =
-  ([ERebaseStart (match f_branch f with Some b => b | None => h end) false (Some u)] ++
+  ([ERebaseStart (match f_branch f with Some b => b | None => h end) false (f_upstream f)] ++
    (if h =? u then [] else [ERenameWorkingLog h u]), set_mask true init).
 Proof.
   intros f h u Hh Hu. unfold start_pre, start_co. cbn [hook_run]. unfold hook_step. cbn [h_name h_args h_env s_mask init andb].
@@ -122,7 +122,7 @@ Proof.
   intros f Hwf HK.
   unfold stmt, wf_firing, Known_C13, rename_at_start_live in *.
   destruct (f_head f) as [h|] eqn:Eh; [|cbn in Hwf; rewrite ?andb_false_r in Hwf; discriminate].
-  destruct (f_upstream f) as [u|] eqn:Eu; [|cbn in Hwf; rewrite ?andb_false_r in Hwf; try discriminate].
+  destruct (f_co_head f) as [u|] eqn:Eu; [|cbn in Hwf; rewrite ?andb_false_r in Hwf; try discriminate].
   apply orb_false_elim in HK. destruct HK as [HK2 HK10].
   apply andb_prop in Hwf; destruct Hwf as [_ Hwf].
   apply andb_prop in Hwf; destruct Hwf as [Hwf Hpk]. apply andb_prop in Hwf; destruct Hwf as [Hwf Hut].
@@ -142,7 +142,7 @@ Proof.
     change (hook_run rewrite_stash_default_debug false [_; _] init) with (hook_run rewrite_stash_default_debug false [start_pre f; start_co f] init).
     erewrite start_prefix by eassumption.
     rewrite tail_run by (assumption || reflexivity). rewrite tail_end_run by reflexivity.
-    assert (Hpre : effects f ([ERebaseStart match f_branch f with Some b => b | None => h end false (Some u)] ++
+    assert (Hpre : effects f ([ERebaseStart match f_branch f with Some b => b | None => h end false (f_upstream f)] ++
                               (if h =? u then [] else [ERenameWorkingLog h u])) = []).
     { rewrite effects_app, eff_start. cbn [app]. destruct (h =? u) eqn:Ehu; [reflexivity|].
       rewrite eff_rename_head by assumption. cbn [negb andb orb] in HK10. 
@@ -218,7 +218,7 @@ Proof.
   rewrite Hg, Hp, Hq. clear Hg Hp Hq Hwf HK HL Hc c.
   unfold wf_firing, leaks in *.
   destruct (f_head f) as [h|] eqn:Eh; [|cbn in Hwf'; rewrite ?andb_false_r in Hwf'; discriminate].
-  destruct (f_upstream f) as [u|] eqn:Eu; [|cbn in Hwf'; rewrite ?andb_false_r in Hwf'; try discriminate].
+  destruct (f_co_head f) as [u|] eqn:Eu; [|cbn in Hwf'; rewrite ?andb_false_r in Hwf'; try discriminate].
   apply andb_prop in Hwf'; destruct Hwf' as [_ Hwf].
   apply andb_prop in Hwf; destruct Hwf as [Hwf Hpk]. apply andb_prop in Hwf; destruct Hwf as [Hwf Hut].
   apply andb_prop in Hwf; destruct Hwf as [Hwf Hnoise].
@@ -263,3 +263,341 @@ Lemma state_CCherryPick : forall f, stmt2 CCherryPick f.
 Proof. intros f Hwf HK HL. cp_class f. Qed.
 Lemma state_CCherryPickContinue : forall f, stmt2 CCherryPickContinue f.
 Proof. intros f Hwf HK HL. cp_class f. Qed.
+
+(* ------------------------------------------------------------------ pull --rebase *)
+Definition pull_pre (f : outcome_facts) : firing :=
+  mkFiring HN_pre_rebase ANone (with_rebase_args (with_ra (env0 f) ra_pull_action) (f_journal_active f) (f_branch f) (f_upstream f)).
+Definition pull_co (f : outcome_facts) : firing :=
+  mkFiring HN_post_checkout (APostCheckout (zero_or (f_head f)) (zero_or (f_co_head f)))
+    (with_pull (with_ra (with_refs (with_seq (env0 f) true None false None) (f_co_head f) None (f_head f) false) ra_pull_action)
+       (match f_picks f with [] => true | _ => false end) false false (f_origs f, f_news f)).
+
+Lemma pull_prefix : forall f h p ps, f_head f = Some h -> f_picks f = p :: ps ->
+  hook_run rewrite_stash_default_debug false [pull_pre f; pull_co f] init = ([], mkSide true (Some h) None None).
+Proof.
+  intros f h p ps Hh Hp. unfold pull_pre, pull_co. cbn [hook_run]. unfold hook_step. cbn [h_name h_args h_env s_mask init andb].
+  cbn. rewrite Hh, Hp. cbn. reflexivity.
+Qed.
+
+Definition ppr_events (f : outcome_facts) (h n : sha) : list core_event :=
+  if h =? n then []
+  else ERenameWorkingLog h n ::
+       match f_origs f, f_news f with
+       | [], _ => []
+       | _, [] => []
+       | os, ns => [ERebaseComplete h n false os ns]
+       end.
+
+Lemma pull_prefix_nil : forall f h u, f_head f = Some h -> f_co_head f = Some u -> f_picks f = [] ->
+  hook_run rewrite_stash_default_debug false [pull_pre f; pull_co f] init = (ppr_events f h u, init).
+Proof.
+  intros f h u Hh Hu Hp. unfold pull_pre, pull_co, ppr_events. cbn [hook_run]. unfold hook_step.
+  cbn [h_name h_args h_env s_mask init andb]. cbn. rewrite Hh, Hu, Hp. cbn.
+  destruct (h =? u); [reflexivity|]. destruct (f_origs f); [reflexivity|]. destruct (f_news f); reflexivity.
+Qed.
+
+Lemma pull_final : forall f h n p ps, f_head_after f = Some n -> f_in_progress_after f = false -> f_picks f = p :: ps ->
+  hook_run rewrite_stash_default_debug false (tail_end true f) (mkSide true (Some h) None None) = (ppr_events f h n, init).
+Proof.
+  intros f h n p ps Hn Hi Hp. unfold tail_end, ppr_events. rewrite Hi, Hp. cbn [hook_run]. unfold hook_step.
+  cbn [h_name h_args h_env s_mask andb]. cbn. rewrite Hn. cbn.
+  destruct (h =? n); [reflexivity|]. destruct (f_origs f); [reflexivity|]. destruct (f_news f); reflexivity.
+Qed.
+
+Lemma eff_ppr : forall f h n, f_head f = Some h -> (f_wl_pending f && negb (h =? n)) = false ->
+  effects f (ppr_events f h n) =
+  if h =? n then [] else match f_origs f, f_news f with
+                         | [], _ => [] | _, [] => [] | os, ns => [ERebaseComplete h n false os ns] end.
+Proof.
+  intros f h n Hh Hw. unfold ppr_events. destruct (h =? n) eqn:E; [reflexivity|].
+  change (ERenameWorkingLog h n :: ?l) with ([ERenameWorkingLog h n] ++ l). rewrite effects_app.
+  assert (effects f [ERenameWorkingLog h n] = []) as ->.
+  { unfold effects, live. cbn. rewrite Hh. cbn. rewrite N.eqb_refl, E. cbn [negb andb] in *. rewrite andb_true_r in Hw.
+    rewrite Hw. reflexivity. }
+  cbn [app]. destruct (f_origs f); [reflexivity|]. destruct (f_news f); reflexivity.
+Qed.
+
+Lemma same_CPullRebase : forall f, stmt CPullRebase f.
+Proof.
+  intros f Hwf HK. unfold stmt, wf_firing, Known_C13 in *.
+  apply andb_prop in Hwf; destruct Hwf as [_ Hwf].
+  destruct (f_exit_ok f) eqn:Eok;
+    [|unfold hook_events, git_fires, wrap_events, wrap_pull; cbn [has_pre has_post command_of existsb]; rewrite Eok; reflexivity].
+  destruct (f_head f) as [h|] eqn:Eh; [|cbn in Hwf; rewrite ?andb_false_r in Hwf; discriminate].
+  destruct (f_head_after f) as [n|] eqn:En; [|cbn in Hwf; rewrite ?andb_false_r in Hwf; discriminate].
+  destruct (f_co_head f) as [u|] eqn:Eu; [|cbn in Hwf; rewrite ?andb_false_r in Hwf; discriminate].
+  apply andb_prop in Hwf; destruct Hwf as [Hwf Hok]. apply andb_prop in Hwf; destruct Hwf as [Hwf Hpn].
+  apply andb_prop in Hwf; destruct Hwf as [Hwf Hnzu]. apply andb_prop in Hwf; destruct Hwf as [Hwf Hnoise].
+  apply andb_prop in Hwf; destruct Hwf as [Hnip Hnipa]. apply negb_true_iff in Hnipa.
+  unfold hook_events, git_fires, pre_state, wrap_events. cbn [has_pre has_post command_of existsb].
+  change (negb _) with false at 1. cbn iota. rewrite Eok. cbn [negb orb andb is_some] in Hok, HK.
+  apply orb_false_elim in HK. destruct HK as [HKwl HKp].
+  unfold opt_eqb in HKwl, HKp, Hok.
+  unfold wrap_pull. rewrite Eok, Eh, En. cbn [negb].
+  unfold fires_rebase_start.
+  destruct (f_uptodate f) eqn:Eutd.
+  - cbn [hook_run fst]. cbn [negb orb andb] in Hok.
+    apply andb_prop in Hok; destruct Hok as [Hok _]. apply andb_prop in Hok; destruct Hok as [Hsame _].
+    rewrite N.eqb_sym in Hsame. rewrite Hsame. reflexivity.
+  - change (?a :: ?b :: rebase_tail true f) with ([pull_pre f; pull_co f] ++ rebase_tail true f).
+    rewrite hook_run_app.
+    change (hook_run rewrite_stash_default_debug false [_; _] init) with (hook_run rewrite_stash_default_debug false [pull_pre f; pull_co f] init).
+    destruct (f_picks f) as [|p ps] eqn:Epk.
+    + destruct (f_noise f) eqn:Eno; [|discriminate].
+      erewrite pull_prefix_nil by eassumption. unfold rebase_tail, tail_end. rewrite Eno, Epk, Hnipa. cbn [app hook_run fst].
+      rewrite app_nil_r. cbn [negb andb] in HKp. apply negb_false_iff in HKp. apply N.eqb_eq in HKp. subst u.
+      rewrite eff_ppr by assumption.
+      destruct (h =? n); [reflexivity|]. destruct (f_origs f); [reflexivity|]. destruct (f_news f); reflexivity.
+    + erewrite pull_prefix by eassumption.
+      rewrite tail_run by (assumption || reflexivity).
+      erewrite pull_final by eassumption. cbn [app fst].
+      rewrite eff_ppr by assumption.
+      destruct (h =? n); [reflexivity|]. destruct (f_origs f); [reflexivity|]. destruct (f_news f); reflexivity.
+Qed.
+
+Lemma state_CPullRebase : forall f, stmt2 CPullRebase f.
+Proof.
+  intros f Hwf HK _. unfold stmt2, wf_firing, Known_C13 in *.
+  apply andb_prop in Hwf; destruct Hwf as [_ Hwf].
+  destruct (f_exit_ok f) eqn:Eok;
+    [|unfold hook_events, git_fires, post_state; rewrite Eok; apply andb_prop in Hwf; destruct Hwf as [Hwf _];
+      apply andb_prop in Hwf; destruct Hwf as [Hwf _]; apply andb_prop in Hwf; destruct Hwf as [Hwf _];
+      apply andb_prop in Hwf; destruct Hwf as [Hwf _]; apply andb_prop in Hwf; destruct Hwf as [_ Hnipa];
+      apply negb_true_iff in Hnipa; rewrite Hnipa; reflexivity].
+  destruct (f_head f) as [h|] eqn:Eh; [|cbn in Hwf; rewrite ?andb_false_r in Hwf; discriminate].
+  destruct (f_head_after f) as [n|] eqn:En; [|cbn in Hwf; rewrite ?andb_false_r in Hwf; discriminate].
+  destruct (f_co_head f) as [u|] eqn:Eu; [|cbn in Hwf; rewrite ?andb_false_r in Hwf; discriminate].
+  apply andb_prop in Hwf; destruct Hwf as [Hwf Hok]. apply andb_prop in Hwf; destruct Hwf as [Hwf Hpn].
+  apply andb_prop in Hwf; destruct Hwf as [Hwf Hnzu]. apply andb_prop in Hwf; destruct Hwf as [Hwf Hnoise].
+  apply andb_prop in Hwf; destruct Hwf as [Hnip Hnipa]. apply negb_true_iff in Hnipa.
+  unfold hook_events, git_fires, pre_state, post_state. rewrite Eok, Hnipa.
+  unfold fires_rebase_start.
+  destruct (f_uptodate f) eqn:Eutd; [reflexivity|].
+  change (?a :: ?b :: rebase_tail true f) with ([pull_pre f; pull_co f] ++ rebase_tail true f).
+  rewrite hook_run_app.
+  change (hook_run rewrite_stash_default_debug false [_; _] init) with (hook_run rewrite_stash_default_debug false [pull_pre f; pull_co f] init).
+  destruct (f_picks f) as [|p ps] eqn:Epk.
+  - destruct (f_noise f) eqn:Eno; [|discriminate].
+    erewrite pull_prefix_nil by eassumption. unfold rebase_tail, tail_end. rewrite Eno, Epk, Hnipa. reflexivity.
+  - erewrite pull_prefix by eassumption.
+    rewrite tail_run by (assumption || reflexivity).
+    erewrite pull_final by eassumption. reflexivity.
+Qed.
+
+(* ------------------------------------------------------------------ all classes *)
+Theorem same_events : forall c f, wf_firing c f = true -> Known_C13 c f = false ->
+  effects f (fst (hook_events (git_fires c f) (pre_state c))) = effects f (wrap_events c f).
+Proof.
+  intros c f. destruct c.
+  - apply same_CCommit. - apply same_CCommitAmend. - apply same_CRebase. - apply same_CRebaseI.
+  - apply same_CRebaseContinue. - apply same_CRebaseAbort. - apply same_CCherryPick. - apply same_CCherryPickContinue.
+  - apply same_CCherryPickAbort. - apply same_CResetSoft. - apply same_CResetMixed. - apply same_CResetHard.
+  - apply same_CResetPath. - apply same_CStashPush. - apply same_CStashPop. - apply same_CStashApply.
+  - apply same_CStashDrop. - apply same_CMergeSquash. - apply same_CCheckoutBranch. - apply same_CSwitchBranch.
+  - apply same_CCheckoutPath. - apply same_CPullFF. - apply same_CPullRebase.
+Qed.
+
+Theorem same_events_erased : forall c f, wf_firing c f = true -> Known_C13 c f = false ->
+  erase_shas (effects f (fst (hook_events (git_fires c f) (pre_state c)))) = erase_shas (effects f (wrap_events c f)).
+Proof. intros c f H1 H2. rewrite (same_events c f H1 H2). reflexivity. Qed.
+
+Theorem side_state_cleared : forall c f, wf_firing c f = true -> Known_C13 c f = false -> leaks c f = false ->
+  snd (hook_events (git_fires c f) (pre_state c)) = post_state f c.
+Proof.
+  intros c f. destruct c.
+  - apply state_CCommit. - apply state_CCommitAmend. - apply state_rebase_start; auto. - apply state_rebase_start; auto.
+  - apply state_CRebaseContinue. - intros _ _ H; discriminate H. - apply state_CCherryPick. - apply state_CCherryPickContinue.
+  - apply state_CCherryPickAbort. - apply state_CResetSoft. - apply state_CResetMixed. - apply state_CResetHard.
+  - apply state_CResetPath. - apply state_CStashPush. - apply state_CStashPop. - apply state_CStashApply.
+  - apply state_CStashDrop. - apply state_CMergeSquash. - apply state_CCheckoutBranch. - apply state_CSwitchBranch.
+  - apply state_CCheckoutPath. - apply state_CPullFF. - apply state_CPullRebase.
+Qed.
+
+(* ------------------------------------------------------------------ sequences of commands *)
+Definition cmd := (command_class * outcome_facts)%type.
+
+Fixpoint run_hooks (cmds : list cmd) (st : side_state) : list core_event * side_state :=
+  match cmds with
+  | [] => ([], st)
+  | (c, f) :: rest =>
+      let '(e1, s1) := hook_events (git_fires c f) st in
+      let '(e2, s2) := run_hooks rest s1 in
+      (effects f e1 ++ e2, s2)
+  end.
+
+Fixpoint run_wrap (cmds : list cmd) : list core_event :=
+  match cmds with
+  | [] => []
+  | (c, f) :: rest => effects f (wrap_events c f) ++ run_wrap rest
+  end.
+
+(* every command starts in the state the previous one is expected to leave (a stopped rebase keeps the
+   mask; everything else starts from the cleared state) *)
+Fixpoint chained (st : side_state) (cmds : list cmd) : Prop :=
+  match cmds with
+  | [] => True
+  | (c, f) :: rest => st = pre_state c /\ chained (post_state f c) rest
+  end.
+
+Definition agreeing (x : cmd) : Prop :=
+  wf_firing (fst x) (snd x) = true /\ Known_C13 (fst x) (snd x) = false /\ leaks (fst x) (snd x) = false.
+
+Definition final_state (st : side_state) (cmds : list cmd) : side_state :=
+  match rev cmds with [] => st | (c, f) :: _ => post_state f c end.
+
+Theorem sequences : forall cmds st, chained st cmds -> Forall agreeing cmds ->
+  run_hooks cmds st = (run_wrap cmds, final_state st cmds).
+Proof.
+  induction cmds as [|[c f] rest IH]; intros st Hch Hall.
+  - reflexivity.
+  - cbn [run_hooks run_wrap]. destruct Hch as [Hst Hch]. subst st.
+    inversion Hall as [|x l Hx Hrest]; subst. destruct Hx as (Hwf & HK & HL). cbn [fst snd] in *.
+    pose proof (same_events c f Hwf HK) as Hev. pose proof (side_state_cleared c f Hwf HK HL) as Hs.
+    destruct (hook_events (git_fires c f) (pre_state c)) as [e1 s1]. cbn [fst snd] in *. subst s1.
+    rewrite (IH _ Hch Hrest). rewrite Hev. f_equal.
+    unfold final_state. cbn [rev]. destruct rest as [|y r]; [reflexivity|].
+    destruct (rev (y :: r)) as [|[c' f'] l'] eqn:E.
+    + exfalso. apply (f_equal (@length _)) in E. rewrite rev_length in E. discriminate.
+    + reflexivity.
+Qed.
+
+(* ------------------------------------------------------------------ wrapper and managed hooks both installed *)
+Lemma skip_inert : forall rs fs st, hook_run rs true fs st = ([], st).
+Proof.
+  induction fs; intros st; cbn [hook_run]; [reflexivity|].
+  unfold hook_step. destruct (s_mask st && maskable (h_name a)); rewrite IHfs; reflexivity.
+Qed.
+
+Theorem no_double : forall c f st, both_events c f st = (wrap_events c f, st).
+Proof.
+  intros c f st. unfold both_events. change wrapper_child_sets_skip with true. rewrite skip_inert. rewrite app_nil_r. reflexivity.
+Qed.
+
+(* the second barrier: with core.hooksPath overridden for the child git no managed hook is started at all *)
+Theorem no_double_override : forall rs sk st, hook_run rs sk [] st = ([], st).
+Proof. reflexivity. Qed.
+
+Lemma override_covers_all : forall c, existsb (git_command_eqb (command_of c)) child_override_commands = true.
+Proof. destruct c; reflexivity. Qed.
+
+(* ------------------------------------------------------------------ witnesses of the known differences *)
+Definition wit_K1_abort : outcome_facts := (mkFacts (Some 10) (Some 10) (Some 9) false true false None true false true (Some 10) [] None None None None false [] [] [] [] [] [] None true false None 0%nat 0%nat None None true false false false).
+Lemma refuted_K1_abort : wf_firing CRebaseAbort wit_K1_abort = true /\ Known_C13 CRebaseAbort wit_K1_abort = false /\ leaks CRebaseAbort wit_K1_abort = true /\
+  s_mask (snd (hook_events (git_fires CRebaseAbort wit_K1_abort) (pre_state CRebaseAbort))) = true /\ s_mask (post_state wit_K1_abort CRebaseAbort) = false.
+Proof. repeat (split; [vm_compute; reflexivity|]). vm_compute; reflexivity. Qed.
+Definition wit_K1_ff : outcome_facts := (mkFacts (Some 10) (Some 20) (Some 9) false true false None false false false None [] None (Some 20) (Some 20) None false [] [] [] [] [] [] None true false None 0%nat 0%nat None None true false false false).
+Lemma refuted_K1_ff : wf_firing CRebase wit_K1_ff = true /\ Known_C13 CRebase wit_K1_ff = false /\ leaks CRebase wit_K1_ff = true /\
+  s_mask (snd (hook_events (git_fires CRebase wit_K1_ff) (pre_state CRebase))) = true /\ s_mask (post_state wit_K1_ff CRebase) = false.
+Proof. repeat (split; [vm_compute; reflexivity|]). vm_compute; reflexivity. Qed.
+Definition wit_K2_drop : outcome_facts := (mkFacts (Some 12) (Some 21) (Some 9) false true false None false false false None [] None (Some 5) (Some 5) None false [(11, 21)] [11; 12] [21] [] [] [] None true false None 0%nat 0%nat None None true false false false).
+Lemma refuted_K2_drop : wf_firing CRebaseI wit_K2_drop = true /\ Known_C13 CRebaseI wit_K2_drop = true /\
+  erase_shas (effects wit_K2_drop (fst (hook_events (git_fires CRebaseI wit_K2_drop) (pre_state CRebaseI)))) <>
+  erase_shas (effects wit_K2_drop (wrap_events CRebaseI wit_K2_drop)).
+Proof. split; [vm_compute; reflexivity|]. split; [vm_compute; reflexivity|]. vm_compute. intro H; discriminate H. Qed.
+Definition wit_K2_squash : outcome_facts := (mkFacts (Some 12) (Some 21) (Some 9) false true false None false false false None [] None (Some 5) (Some 5) None false [(11, 21); (12, 21)] [11; 12] [21] [] [] [] None true false None 0%nat 0%nat None None true false false false).
+Lemma refuted_K2_squash : wf_firing CRebaseI wit_K2_squash = true /\ Known_C13 CRebaseI wit_K2_squash = true /\
+  erase_shas (effects wit_K2_squash (fst (hook_events (git_fires CRebaseI wit_K2_squash) (pre_state CRebaseI)))) <>
+  erase_shas (effects wit_K2_squash (wrap_events CRebaseI wit_K2_squash)).
+Proof. split; [vm_compute; reflexivity|]. split; [vm_compute; reflexivity|]. vm_compute. intro H; discriminate H. Qed.
+Definition wit_K3 : outcome_facts := (mkFacts (Some 10) (Some 11) (Some 10) false true true None false false false None [] None None None None false [] [] [] [] [] [] None true false None 0%nat 0%nat None None true false false false).
+Lemma refuted_K3 : wf_firing CCommit wit_K3 = true /\ Known_C13 CCommit wit_K3 = true /\
+  erase_shas (effects wit_K3 (fst (hook_events (git_fires CCommit wit_K3) (pre_state CCommit)))) <>
+  erase_shas (effects wit_K3 (wrap_events CCommit wit_K3)).
+Proof. split; [vm_compute; reflexivity|]. split; [vm_compute; reflexivity|]. vm_compute. intro H; discriminate H. Qed.
+Definition wit_K4 : outcome_facts := (mkFacts (Some 10) (Some 22) (Some 9) false true false None false false false None [] None None None None false [] [] [21; 22] [] [31; 32] [mkMade 31 21 10 true true; mkMade 32 22 21 true true] None true false None 0%nat 0%nat None None true false false false).
+Lemma refuted_K4 : wf_firing CCherryPick wit_K4 = true /\ Known_C13 CCherryPick wit_K4 = true /\
+  erase_shas (effects wit_K4 (fst (hook_events (git_fires CCherryPick wit_K4) (pre_state CCherryPick)))) <>
+  erase_shas (effects wit_K4 (wrap_events CCherryPick wit_K4)).
+Proof. split; [vm_compute; reflexivity|]. split; [vm_compute; reflexivity|]. vm_compute. intro H; discriminate H. Qed.
+Definition wit_K5 : outcome_facts := (mkFacts (Some 10) (Some 11) (Some 10) false true false (Some 31) false false false None [] None None None None false [] [] [] [] [] [] None true false None 0%nat 0%nat None None true false false false).
+Lemma refuted_K5 : wf_firing CCommit wit_K5 = true /\ Known_C13 CCommit wit_K5 = true /\
+  erase_shas (effects wit_K5 (fst (hook_events (git_fires CCommit wit_K5) (pre_state CCommit)))) <>
+  erase_shas (effects wit_K5 (wrap_events CCommit wit_K5)).
+Proof. split; [vm_compute; reflexivity|]. split; [vm_compute; reflexivity|]. vm_compute. intro H; discriminate H. Qed.
+Definition wit_K6_hard_head : outcome_facts := (mkFacts (Some 10) (Some 10) (Some 9) false true false None false false false None [] None None None None false [] [] [] [] [] [] (Some 10) true false None 0%nat 0%nat None None true false false false).
+Lemma refuted_K6_hard_head : wf_firing CResetHard wit_K6_hard_head = true /\ Known_C13 CResetHard wit_K6_hard_head = true /\
+  erase_shas (effects wit_K6_hard_head (fst (hook_events (git_fires CResetHard wit_K6_hard_head) (pre_state CResetHard)))) <>
+  erase_shas (effects wit_K6_hard_head (wrap_events CResetHard wit_K6_hard_head)).
+Proof. split; [vm_compute; reflexivity|]. split; [vm_compute; reflexivity|]. vm_compute. intro H; discriminate H. Qed.
+Definition wit_K6_path : outcome_facts := (mkFacts (Some 10) (Some 10) (Some 9) false true false None false false false None [] None None None None false [] [] [] [] [] [] (Some 10) true false None 0%nat 0%nat None None true false false false).
+Lemma refuted_K6_path : wf_firing CResetPath wit_K6_path = true /\ Known_C13 CResetPath wit_K6_path = true /\
+  erase_shas (effects wit_K6_path (fst (hook_events (git_fires CResetPath wit_K6_path) (pre_state CResetPath)))) <>
+  erase_shas (effects wit_K6_path (wrap_events CResetPath wit_K6_path)).
+Proof. split; [vm_compute; reflexivity|]. split; [vm_compute; reflexivity|]. vm_compute. intro H; discriminate H. Qed.
+Definition wit_K7 : outcome_facts := (mkFacts (Some 10) (Some 10) (Some 9) false true false None false false false None [] None None None None false [] [] [] [] [] [] None true false None 0%nat 0%nat None None true false false true).
+Lemma refuted_K7 : wf_firing CCheckoutPath wit_K7 = true /\ Known_C13 CCheckoutPath wit_K7 = true /\
+  erase_shas (effects wit_K7 (fst (hook_events (git_fires CCheckoutPath wit_K7) (pre_state CCheckoutPath)))) <>
+  erase_shas (effects wit_K7 (wrap_events CCheckoutPath wit_K7)).
+Proof. split; [vm_compute; reflexivity|]. split; [vm_compute; reflexivity|]. vm_compute. intro H; discriminate H. Qed.
+Definition wit_K8_apply : outcome_facts := (mkFacts (Some 10) (Some 10) (Some 9) false true false None false false false None [] None None None None false [] [] [] [] [] [] None true true (Some 40) 1%nat 1%nat None None true false false false).
+Lemma refuted_K8_apply : wf_firing CStashApply wit_K8_apply = true /\ Known_C13 CStashApply wit_K8_apply = true /\
+  erase_shas (effects wit_K8_apply (fst (hook_events (git_fires CStashApply wit_K8_apply) (pre_state CStashApply)))) <>
+  erase_shas (effects wit_K8_apply (wrap_events CStashApply wit_K8_apply)).
+Proof. split; [vm_compute; reflexivity|]. split; [vm_compute; reflexivity|]. vm_compute. intro H; discriminate H. Qed.
+Definition wit_K8_pop2 : outcome_facts := (mkFacts (Some 10) (Some 10) (Some 9) false true false None false false false None [] None None None None false [] [] [] [] [] [] None true true (Some 40) 2%nat 1%nat None None true false false false).
+Lemma refuted_K8_pop2 : wf_firing CStashPop wit_K8_pop2 = true /\ Known_C13 CStashPop wit_K8_pop2 = true /\
+  erase_shas (effects wit_K8_pop2 (fst (hook_events (git_fires CStashPop wit_K8_pop2) (pre_state CStashPop)))) <>
+  erase_shas (effects wit_K8_pop2 (wrap_events CStashPop wit_K8_pop2)).
+Proof. split; [vm_compute; reflexivity|]. split; [vm_compute; reflexivity|]. vm_compute. intro H; discriminate H. Qed.
+Definition wit_K8_drop_dirty : outcome_facts := (mkFacts (Some 10) (Some 10) (Some 9) false true false None false false false None [] None None None None false [] [] [] [] [] [] None true true (Some 40) 1%nat 0%nat None None true false false false).
+Lemma refuted_K8_drop_dirty : wf_firing CStashDrop wit_K8_drop_dirty = true /\ Known_C13 CStashDrop wit_K8_drop_dirty = true /\
+  erase_shas (effects wit_K8_drop_dirty (fst (hook_events (git_fires CStashDrop wit_K8_drop_dirty) (pre_state CStashDrop)))) <>
+  erase_shas (effects wit_K8_drop_dirty (wrap_events CStashDrop wit_K8_drop_dirty)).
+Proof. split; [vm_compute; reflexivity|]. split; [vm_compute; reflexivity|]. vm_compute. intro H; discriminate H. Qed.
+Definition wit_K9 : outcome_facts := (mkFacts (Some 10) (Some 10) (Some 9) false true false None false false false None [] None None None None false [] [] [] [] [] [] None true false None 0%nat 0%nat None (Some 50) false false false false).
+Lemma refuted_K9 : wf_firing CMergeSquash wit_K9 = true /\ Known_C13 CMergeSquash wit_K9 = true /\
+  erase_shas (effects wit_K9 (fst (hook_events (git_fires CMergeSquash wit_K9) (pre_state CMergeSquash)))) <>
+  erase_shas (effects wit_K9 (wrap_events CMergeSquash wit_K9)).
+Proof. split; [vm_compute; reflexivity|]. split; [vm_compute; reflexivity|]. vm_compute. intro H; discriminate H. Qed.
+Definition wit_K10 : outcome_facts := (mkFacts (Some 12) (Some 22) (Some 9) false true false None false false false None [] None (Some 5) (Some 5) None false [(11, 21); (12, 22)] [11; 12] [21; 22] [] [] [] None true false None 0%nat 0%nat None None true true false false).
+Lemma refuted_K10 : wf_firing CRebase wit_K10 = true /\ Known_C13 CRebase wit_K10 = true /\
+  erase_shas (effects wit_K10 (fst (hook_events (git_fires CRebase wit_K10) (pre_state CRebase)))) <>
+  erase_shas (effects wit_K10 (wrap_events CRebase wit_K10)).
+Proof. split; [vm_compute; reflexivity|]. split; [vm_compute; reflexivity|]. vm_compute. intro H; discriminate H. Qed.
+Definition wit_K11 : outcome_facts := (mkFacts (Some 10) (Some 9) (Some 9) false true false None false false false None [] None None None None false [] [] [] [] [] [] (Some 9) true true None 0%nat 0%nat None None true false true false).
+Lemma refuted_K11 : wf_firing CResetSoft wit_K11 = true /\ Known_C13 CResetSoft wit_K11 = true /\
+  erase_shas (effects wit_K11 (fst (hook_events (git_fires CResetSoft wit_K11) (pre_state CResetSoft)))) <>
+  erase_shas (effects wit_K11 (wrap_events CResetSoft wit_K11)).
+Proof. split; [vm_compute; reflexivity|]. split; [vm_compute; reflexivity|]. vm_compute. intro H; discriminate H. Qed.
+
+Theorem same_events_unconditional_refuted : exists c f, wf_firing c f = true /\
+  erase_shas (effects f (fst (hook_events (git_fires c f) (pre_state c)))) <> erase_shas (effects f (wrap_events c f)).
+Proof. exists CRebaseI, wit_K2_drop. destruct refuted_K2_drop as (H1 & _ & H3). split; assumption. Qed.
+
+Theorem side_state_leak_refuted : exists c f, wf_firing c f = true /\ Known_C13 c f = false /\
+  snd (hook_events (git_fires c f) (pre_state c)) <> post_state f c.
+Proof.
+  exists CRebase, wit_K1_ff. destruct refuted_K1_ff as (H1 & H2 & _ & H4 & H5). repeat split; try assumption.
+  intro E. rewrite E in H4. rewrite H4 in H5. discriminate H5.
+Qed.
+
+(* the leak makes the next command invisible: a fast-forward rebase followed by a commit *)
+Definition wit_commit_after : outcome_facts := (mkFacts (Some 20) (Some 21) (Some 20) false true false None false false false None [] None None None None false [] [] [] [] [] [] None true false None 0%nat 0%nat None None true false false false).
+Theorem sequences_leak_refuted :
+  let cmds := [(CRebase, wit_K1_ff); (CCommit, wit_commit_after)] in
+  Forall (fun x => wf_firing (fst x) (snd x) = true /\ Known_C13 (fst x) (snd x) = false) cmds /\
+  erase_shas (fst (run_hooks cmds init)) = [] /\
+  erase_shas (run_wrap cmds) = [SPreCommitCheckpoint; SCommit true].
+Proof.
+  cbn zeta. split.
+  - repeat constructor; vm_compute; reflexivity.
+  - split; vm_compute; reflexivity.
+Qed.
+
+(* non-vacuity: classes where both translations produce the same non-empty effects *)
+Definition wit_rebase2 : outcome_facts := (mkFacts (Some 12) (Some 22) (Some 9) false true false None false false false None [] None (Some 5) (Some 5) None false [(11, 21); (12, 22)] [11; 12] [21; 22] [] [] [] None true false None 0%nat 0%nat None None true false false false).
+Example nonvacuous_rebase : wf_firing CRebase wit_rebase2 = true /\ Known_C13 CRebase wit_rebase2 = false /\
+  effects wit_rebase2 (wrap_events CRebase wit_rebase2) = [ERebaseComplete 12 22 false [11; 12] [21; 22]] /\
+  effects wit_rebase2 (fst (hook_events (git_fires CRebase wit_rebase2) init)) = [ERebaseComplete 12 22 false [11; 12] [21; 22]].
+Proof. repeat split; vm_compute; reflexivity. Qed.
+
+Definition wit_amend : outcome_facts := (mkFacts (Some 10) (Some 11) (Some 9) false true false None false false false None [] None None None None false [] [] [] [] [] [] None true false None 0%nat 0%nat None None true false false false).
+Example nonvacuous_sequence :
+  let cmds := [(CCommit, wit_commit_after); (CCommitAmend, (mkFacts (Some 21) (Some 23) (Some 20) false true false None false false false None [] None None None None false [] [] [] [] [] [] None true false None 0%nat 0%nat None None true false false false)); (CRebaseI, (mkFacts (Some 23) (Some 33) (Some 9) false true false None false false false None [] None (Some 5) (Some 5) None false [(23, 33)] [23] [33] [] [] [] None true false None 0%nat 0%nat None None true false false false))] in
+  chained init cmds /\ Forall agreeing cmds /\
+  erase_shas (run_wrap cmds) = [SPreCommitCheckpoint; SCommit true; SPreCommitCheckpoint; SCommitAmend; SRebaseComplete false 1 1].
+Proof.
+  cbn zeta. split; [cbn; repeat split|]. split.
+  - repeat constructor; vm_compute; reflexivity.
+  - vm_compute; reflexivity.
+Qed.
